@@ -23,7 +23,17 @@ def fieldBoundary (w len : Nat) : Gen Nat := do
 /-- one corruption operator; `fields` = (offset, width) of the length/count/offset fields worth attacking -/
 def corruptOnce (fields : List (Nat × Nat)) (bs : Bytes) : Gen Bytes := do
   let n := bs.length
-  match ← Gen.below 8 with
+  match ← Gen.below 10 with
+  | 8 => do                                   -- splice: insert a span (everything behind it shifts)
+    let dst ← Gen.below (n + 1)
+    let len ← Gen.oneOf [1, 2, 4, 8, 24, 64]
+    let chunk ← (do if n > 0 && (← Gen.bool) then (do return (bs.drop (← Gen.below n)).take len) else Gen.bytes len)
+    return bs.take dst ++ chunk ++ bs.drop dst
+  | 9 => do                                   -- splice: delete a span
+    if n = 0 then return bs
+    let dst ← Gen.below n
+    let len ← Gen.oneOf [1, 2, 4, 8, 24, 64]
+    return bs.take dst ++ bs.drop (dst + len)
   | 0 => do return flipBit bs (← Gen.below (8 * n))
   | 1 => do
     let off ← Gen.below n
